@@ -7,7 +7,7 @@
 (*   quiesce idle          end of the behaviour; idle = no worker exists      *)
 EXTENDS TraceKit
 
-VARIABLES pos, viol, cnt, attempts, started, ended, running, closeRet
+VARIABLES pos, viol, cnt, attempts, started, ended, running, closeRet, marked
 
 \* attempts: <<op, accepted, attempted after GracefulClose returned, kind>>; the waiter items of
 \* Done are pion's own closures: they are not seen starting or ending, their run is witnessed by
@@ -18,6 +18,7 @@ AcceptedSeq == [i \in 1..Len(AccItems) |-> AccItems[i][1]]
 AcceptedOps == {Accepted[i][1] : i \in 1..Len(Accepted)}
 StartedOps  == {started[i] : i \in 1..Len(started)}
 Late        == {attempts[i][1] : i \in {j \in 1..Len(attempts) : attempts[j][3]}}
+LateMarked  == {attempts[i][1] : i \in {j \in 1..Len(attempts) : attempts[j][5]}}
 IdxOf(op)   == CHOOSE i \in 1..Len(attempts) : attempts[i][1] = op
 WaitOp(w)   == "w_" \o w
 
@@ -27,6 +28,9 @@ Preds(e) ==
    P("C05", "Fifo", st, Len(started) < Len(AcceptedSeq) /\ AcceptedSeq[Len(started) + 1] = e.op),
    P("C05", "ExactlyOnceNoRerun", st, e.op \notin StartedOps),
    P("C05", "NothingAfterClose", st, e.op \notin Late),
+   \* "a graceful close" taken at its linearization point: from the moment the queue is marked closed
+   \* (under its lock) nothing that is queued later runs
+   P("C05", "NothingQueuedAfterCloseRuns", st, e.op \notin LateMarked),
    P("C05", "DoneCovers", e.ev = "ret" /\ e.fn = "Done",
         LET w == WaitOp(e.who) IN
         /\ \E i \in 1..Len(attempts) : attempts[i][1] = w
@@ -35,18 +39,18 @@ Preds(e) ==
   }
 
 Init == /\ pos = 1 /\ viol = {} /\ cnt = EmptyCount
-        /\ attempts = <<>> /\ started = <<>> /\ ended = {} /\ running = {} /\ closeRet = FALSE
+        /\ attempts = <<>> /\ started = <<>> /\ ended = {} /\ running = {} /\ closeRet = FALSE /\ marked = FALSE
 
 Step ==
   /\ pos <= Len(Trace)
   /\ LET e == Trace[pos] IN
        IF e.ev = "reset"
-       THEN /\ attempts' = <<>> /\ started' = <<>> /\ ended' = {} /\ running' = {} /\ closeRet' = FALSE
+       THEN /\ attempts' = <<>> /\ started' = <<>> /\ ended' = {} /\ running' = {} /\ closeRet' = FALSE /\ marked' = FALSE
             /\ UNCHANGED <<viol, cnt>>
        ELSE LET ps == Preds(e) IN
             /\ viol' = Merge(viol, Failures(ps, e, pos))
             /\ cnt'  = Count(cnt, ps)
-            /\ attempts' = IF e.ev = "enq" THEN Append(attempts, <<e.op, e.acc, closeRet, e.kind>>) ELSE attempts
+            /\ attempts' = IF e.ev = "enq" THEN Append(attempts, <<e.op, e.acc, closeRet, e.kind, marked>>) ELSE attempts
             /\ started'  = IF e.ev = "start" THEN Append(started, e.op) ELSE started
             /\ running'  = CASE e.ev = "start" -> running \cup {e.op}
                              [] e.ev = "end"   -> running \ {e.op}
@@ -55,9 +59,10 @@ Step ==
                              [] e.ev = "ret" /\ e.fn = "Done" /\ e.enqueued -> ended \cup {WaitOp(e.who)}
                              [] OTHER -> ended
             /\ closeRet' = (closeRet \/ (e.ev = "ret" /\ e.fn = "GracefulClose"))
+            /\ marked' = (marked \/ e.ev = "closed")
   /\ pos' = pos + 1
 
-Done == pos = Len(Trace) + 1 /\ UNCHANGED <<pos, viol, cnt, attempts, started, ended, running, closeRet>>
+Done == pos = Len(Trace) + 1 /\ UNCHANGED <<pos, viol, cnt, attempts, started, ended, running, closeRet, marked>>
 Next == Step \/ Done
 Rep  == Report(pos, viol, cnt)
 =============================================================================
